@@ -1,5 +1,6 @@
 """C01 - Check() verdict equals the rule semantics applied to the example values."""
 import itertools, json, re
+import vf
 from fractions import Fraction
 from vf import Case
 from props.c10 import hx
@@ -324,6 +325,20 @@ class Prop:
                 kind = rng.choice(KINDS)
                 root = (rvalue() if rng.random() < 0.3 else rvalue(kind), rleaf(kind))
             cs.append(Case(self.mk(root, types, rng.random() < 0.5), 'project-%dtypes' % nt))
+        # the built-in string formats: texts clearly inside and clearly outside each format (lib/oracles/formats.py), as the type
+        # of the example, as an alternative of `or` (name and rule-set), and through a registered type of that format
+        import sys as _sys, os as _os, json as _json
+        _sys.path.insert(0, _os.path.join(vf.ROOT, 'lib', 'oracles'))
+        import formats as _formats
+        from props.c10 import spec as _spec
+        SAMPLE = {'uuid': '"550e8400-e29b-41d4-a716-446655440000"', 'date': '"2021-01-02"', 'datetime': '"2021-01-02T07:23:12Z"', 'email': '"a@b.c"', 'uri': '"http://a.b/c"'}
+        for fmt, text, valid in _formats.cases():
+            lit = _json.dumps(text, ensure_ascii=False)
+            want = 'ok' if valid else 'value'
+            cs.append(Case('corj %s || %s' % (want, _spec('%s // {type: "%s"}' % (lit, fmt))), 'string-formats'))
+            cs.append(Case('corj %s || %s' % (want, _spec('{\n  "k": %s // {or: ["%s", "integer"]}\n}' % (lit, fmt))), 'string-formats'))
+            cs.append(Case('corj %s || %s' % (want, _spec('[\n  %s // {or: [{type: "boolean"}, {type: "%s"}]}\n]' % (lit, fmt))), 'string-formats'))
+            cs.append(Case('corj %s || %s' % (want, _spec('%s // {type: "@f"}' % lit, {'@f': '%s // {type: "%s"}' % (SAMPLE[fmt], fmt)})), 'string-formats'))
         # empty containers with an `or` rule: the example's json type has to be among the alternatives' - whatever was
         # checked before (other members, registered types, references to enum / any types)
         from props.c10 import spec
@@ -464,6 +479,6 @@ class Prop:
                  'the rules inside `or` rule-sets, inside user types, and inside user types referenced from `or` and from other types',
             trusted=['Coq 8.16.1 kernel', 'model coq/Model/RuleSem.v tied by correspondence on the verdict class (accepted / rejected for a value reason)',
                      'text printer and the exact-rational oracle in lib/props/c01.py', 'extraction, driver, harness'],
-            assumptions=['regex and the built-in string formats are not modelled', 'rule sets the compiler refuses as ill-formed (other error codes) are outside the '
+            assumptions=['regex is not modelled; the built-in string formats are judged by reference predicates (lib/oracles/formats.py) on texts clearly inside or outside each format, not modelled in Coq', 'rule sets the compiler refuses as ill-formed (other error codes) are outside the '
                          'statement and are only counted', 'string length = number of characters (code points)'],
             explanation='rule semantics model with theorems; correspondence on boundary grids and random projects; independent exact oracle')
